@@ -78,6 +78,22 @@ def analyse_function(prog: Program, fn: FuncInfo) -> List[Dict[str, Any]]:
             paths.extend(l.paths)
     sites: Dict[str, Dict[str, Any]] = {}
     seen_ev = set()
+    loop_by_id: Dict[int, LoopSummary] = {}
+    for pr in paths:
+        for l in _all_loops(pr.state.trace):
+            loop_by_id[l.loop_id] = l
+
+    def shape_index(c: Aff) -> bool:
+        if not _is_shape_index(c):
+            return False
+        for a in atoms_in(c):
+            if isinstance(a, tuple) and a[0] == "lv":
+                l = loop_by_id.get(a[2])
+                pre = l.pre_env.get(a[1]) if l is not None else None
+                pv = it.scalar(State(), pre) if isinstance(pre, (Aff, Dual)) else None
+                if pv is not None and pv.is_const() and pv.c < 0:
+                    return False  # a selection variable with a negative sentinel ('none chosen yet'): its use is guarded by data, not by shape
+        return True
     for pr in paths:
         s = pr.state
         for e in pr.state.trace:
@@ -100,6 +116,7 @@ def analyse_function(prog: Program, fn: FuncInfo) -> List[Dict[str, Any]]:
                 key = f"{efn}:{src}#{k}"
                 ext = _extent_of(it, s, e.root, k, cur_base)
                 verdict = "unproved"
+                lo = None
                 if ext is not None:
                     lo = s.facts.decide(cmp_cond(">=", c, ZERO))
                     hi = s.facts.decide(cmp_cond("<", c, ext))
@@ -108,7 +125,18 @@ def analyse_function(prog: Program, fn: FuncInfo) -> List[Dict[str, Any]]:
                     elif lo is False or hi is False:
                         verdict = "refuted"
                 rec = sites.setdefault(key, {"key": key, "function": efn, "expr": src, "axis": k, "line": getattr(node, "lineno", 0), "verdicts": set(),
-                                             "index": show_val(c), "extent": show_val(ext) if ext is not None else "?"})
+                                             "index": show_val(c), "extent": show_val(ext) if ext is not None else "?", "shape_only": shape_index(c),
+                                             "foreign_extent": False})
+                if ext is not None and verdict == "unproved" and lo is True:
+                    # the index is bounded by the length of ONE parameter array and addresses ANOTHER parameter array: whether the two have the
+                    # same extent is decided where they are allocated (R-SHAPES / R-INIT-COHERENCE), not inside this function
+                    ext_roots = {a[1] for a in atoms_in(ext) if isinstance(a, tuple) and a[0] in ("len", "dim", "slen")}
+                    if ext_roots and ext_roots <= set(fn.params) and all(isinstance(a, tuple) and a[0] in ("len", "dim", "slen") for a in atoms_in(ext)):
+                        idx_atoms = set(atoms_in(c))
+                        bound_roots = {a[1] for cnd in s.facts.conds if idx_atoms & set(atoms_in(cnd))
+                                       for a in atoms_in(cnd) if isinstance(a, tuple) and a[0] in ("len", "dim", "slen")}
+                        if bound_roots and not (ext_roots & bound_roots):
+                            rec["foreign_extent"] = True
                 rec["verdicts"].add(verdict)
                 cur_base = _advance(cur_base, c)
     out = []
@@ -117,6 +145,15 @@ def analyse_function(prog: Program, fn: FuncInfo) -> List[Dict[str, Any]]:
         rec["verdict"] = "proved" if v == {"proved"} else ("refuted" if "refuted" in v else "unproved")
         out.append(rec)
     return out
+
+
+def _is_shape_index(c: Aff) -> bool:
+    """An index made of loop indices, loop-carried counters and lengths only (no array contents): whether it is inside its array is a
+    matter of loop ranges, clamps and allocation sizes -- decidable from the shape of the code."""
+    for a in atoms_in(c):
+        if not isinstance(a, tuple) or a[0] not in ("it", "lv", "len", "slen", "dim"):
+            return False
+    return True
 
 
 def _advance(base: Tuple[Any, ...], c: Aff) -> Tuple[Any, ...]:
@@ -152,6 +189,13 @@ def rule_extents(ctx: Ctx, prog: Program) -> None:
             if rec["verdict"] == "proved":
                 n_proved += 1
                 ctx.ok("R-EXTENT", key, sample={"index": rec["index"], "extent": rec["extent"]} if n_proved <= 3 else None)
+            elif rec.get("shape_only") and rec.get("foreign_extent"):
+                ctx.undecided_site("R-EXTENT", key, "index bounded by the length of one parameter array, used on another: extents agree by allocation (R-SHAPES, R-INIT-COHERENCE)")
+            elif rec.get("shape_only"):
+                # no frozen list of source texts: a shape index (loop index / counter / length) that cannot be shown inside its array is the violation
+                ctx.violation("R-EXTENT", fn.path, rec["function"], f"{''.join(rec['expr'].split())}#{rec['axis']}", loc,
+                              f"the index of {rec['expr']} (axis {rec['axis']}: {rec['index']}) is not provably within the extent {rec['extent']} "
+                              f"({rec['verdict']}): the loop range / clamp / allocation that bounds it no longer does. Compiled code performs no bounds check")
             elif key in must:
                 ctx.violation("R-EXTENT", fn.path, rec["function"], f"{rec['expr']}#{rec['axis']}", loc,
                               f"the index of {rec['expr']} (axis {rec['axis']}: {rec['index']}) is no longer provably within the extent {rec['extent']} "
@@ -165,8 +209,7 @@ def rule_extents(ctx: Ctx, prog: Program) -> None:
                 else:
                     ctx.undecided_site("R-EXTENT", key, "new site, not provable from path facts (not in the triage table)")
                     ctx.extra.setdefault("new_unproved_sites", []).append(key)
-    missing = [k for k in must if k not in found]
-    ctx.floor("R-EXTENT:must-prove-sites-found", len(must) - len(missing), max(1, int(0.8 * len(must))))
+    ctx.floor("R-EXTENT:sites-proved", n_proved, 20)
     ctx.extra["extent_sites_proved"] = n_proved
     ctx.extra["extent_sites_listed_undecided"] = len([k for k in found if k in undecided])
     ctx.assume("contents of pointer arrays of the Hall-interval propagators (t, h, sets, stbl_intervals, pot_stbl_sets, ds) are in range: not decided")
